@@ -41,6 +41,10 @@ enum Mode {
     Eager,
     Burst,
     SlowRead,
+    /// The socket reads eagerly until it has seen the @link request and lazily afterwards: the
+    /// runtime gets past its initial `send_link` and is then polled after every consumer step
+    /// while its output is blocked, so commands pile up in the backpressure relief queue.
+    SlowAfterLink,
 }
 
 /// Lane operation: a command a consumer writes, or an external change of the remote lane.
@@ -412,6 +416,17 @@ impl World for DlWorld {
                 out.extend(poll);
                 out.extend(script);
                 out.extend(sock);
+                out.extend(recv);
+            }
+            Mode::SlowAfterLink => {
+                out.extend(poll);
+                if !self.sock.linked {
+                    out.extend(sock);
+                    out.extend(script);
+                } else {
+                    out.extend(script);
+                    out.extend(sock);
+                }
                 out.extend(recv);
             }
         }
@@ -1063,6 +1078,37 @@ fn scripts(kind: Kind, quick: bool) -> Vec<(Vec<(usize, Step)>, usize)> {
     out
 }
 
+/// Every single-consumer command stream of length `n` over update(1), update(2), update(3), remove(1),
+/// remove(2) and clear (each remove and the clear at most once, values distinct per position): the
+/// map write task's relief queue (`MapOperationQueue`) is driven through every short history.
+fn map_cmd_streams(n: usize) -> Vec<Vec<(usize, Step)>> {
+    fn rec(n: usize, cur: &mut Vec<LOp>, out: &mut Vec<Vec<LOp>>) {
+        if cur.len() == n {
+            out.push(cur.clone());
+            return;
+        }
+        let p = cur.len() as i32 + 1;
+        let mut alpha = vec![LOp::Upd(1, 10 * p + 1), LOp::Upd(2, 10 * p + 2), LOp::Upd(3, 10 * p + 3)];
+        for once in [LOp::Rem(1), LOp::Rem(2), LOp::Clr] {
+            if !cur.contains(&once) {
+                alpha.push(once);
+            }
+        }
+        for a in alpha {
+            cur.push(a);
+            rec(n, cur, out);
+            cur.pop();
+        }
+    }
+    let mut streams = vec![];
+    rec(n, &mut vec![], &mut streams);
+    streams
+        .into_iter()
+        .filter(|s| s.contains(&LOp::Clr) || s.iter().any(|o| matches!(o, LOp::Rem(_))))
+        .map(|s| std::iter::once((1usize, Step::Attach(false, true))).chain(s.into_iter().map(|o| (1usize, Step::Cmd(o)))).collect())
+        .collect()
+}
+
 struct GridResult {
     total: ExploreStats,
     skipped: usize,
@@ -1118,6 +1164,10 @@ fn run_cfgs(ctx: &Ctx, name: &str, cfgs: Vec<Cfg>, bound: u32, max_exec: u64, wa
 fn main() {
     let ctx = Ctx::from_env("C07");
     if let Some(r) = ctx.replay_request() {
+        if r["leg"].as_str().unwrap_or("").starts_with("mapq-") {
+            asys::mapq::replay(&ctx, &r);
+            ctx.finish("model_checking", "replay");
+        }
         let d = &r["detail"];
         let cfg: Cfg = serde_json::from_value(d["cfg"].clone()).unwrap_or_else(|e| vcommon::machinery_failure(&format!("bad cfg: {}", e)));
         let choices: Vec<u8> = d["choices"].as_array().map(|a| a.iter().map(|x| x.as_u64().unwrap() as u8).collect()).unwrap_or_default();
@@ -1151,8 +1201,11 @@ fn main() {
         for (script, consumers) in &sc {
             for (remote_buf, dl_buf) in [(16usize, 16usize), (4096, 4096), (16, 4096)] {
                 for budget in [2usize, 64] {
-                    for mode in [Mode::Eager, Mode::Burst, Mode::SlowRead] {
+                    for mode in [Mode::Eager, Mode::Burst, Mode::SlowRead, Mode::SlowAfterLink] {
                         if quick && remote_buf == 16 && dl_buf == 4096 && mode != Mode::Eager {
+                            continue;
+                        }
+                        if mode == Mode::SlowAfterLink && remote_buf != 16 {
                             continue;
                         }
                         cfgs.push(Cfg { kind, script: script.clone(), consumers: *consumers, remote_buf, dl_buf, sock_credit: if remote_buf == 16 { 5 } else { 0 }, budget, mode });
@@ -1162,6 +1215,20 @@ fn main() {
         }
         let name = format!("dl-{}-grid-d1", if kind == Kind::Value { "value" } else { "map" });
         run_cfgs(&ctx, &name, cfgs, 1, 20_000, if quick { 14.0 } else { 900.0 });
+        if kind == Kind::Map {
+            let mut cfgs = vec![];
+            for n in if quick { vec![4usize] } else { vec![4usize, 5] } {
+                for script in map_cmd_streams(n) {
+                    for mode in [Mode::SlowAfterLink, Mode::Eager, Mode::SlowRead] {
+                        if quick && mode == Mode::SlowRead {
+                            continue;
+                        }
+                        cfgs.push(Cfg { kind, script: script.clone(), consumers: 1, remote_buf: 16, dl_buf: 4096, sock_credit: 5, budget: 64, mode });
+                    }
+                }
+            }
+            run_cfgs(&ctx, "dl-map-cmdstreams-d1", cfgs, 1, 20_000, if quick { 12.0 } else { 900.0 });
+        }
         let core: Vec<Cfg> = sc
             .iter()
             .filter(|(s, _)| s.len() <= 5)
@@ -1172,6 +1239,7 @@ fn main() {
         let name = format!("dl-{}-core-d2", if kind == Kind::Value { "value" } else { "map" });
         run_cfgs(&ctx, &name, core, if quick { 2 } else { 3 }, if quick { 20_000 } else { 2_000_000 }, if quick { 10.0 } else { 900.0 });
     }
+    asys::mapq::run_runtime(&ctx);
     ctx.assume("the socket is a reactive model of a well-behaved lane: it answers each @link/@sync it reads and applies each @command, at a schedule-chosen pace");
     ctx.assume("tokio select! start index is fixed per run (seeded), not enumerated; schedule switches only where the runtime future returns Pending (plus coop-budget yields)");
     ctx.assume("commands written by the consumers are pairwise distinct so that a received frame identifies its writer");
